@@ -28,6 +28,12 @@ def _aq(name, defs, to, weight, n):
                  weight=weight, extra=["--max-field-sensitivity-array-size", "256"])
 
 
+def bitmap_arm(name, defs, to=900):
+    """BITMAP arm, split through the explicit byte string (harness/adaptive/bitmap_arm.c)"""
+    return Query(name, "adaptive/bitmap_arm.c", U, defs=defs, stubs=["mem", "qsort"], checks="mem", unwind=40, unwind_fn=UF, timeout=to,
+                 weight=6, mem_gb=16, extra=["--max-field-sensitivity-array-size", "128"])
+
+
 def queries(prop, tier):
     """adaptive parts of C03 (prop 3), C13, C16"""
     qs = []
@@ -43,7 +49,12 @@ def queries(prop, tier):
             for n in ((2,) if q else (2, 3)):
                 for cap in ((n - 1,) if q else range(0, n)):
                     qs.append(aq("P13-adaptive-forced-%s-n%d-cap%d" % (NAMES[f], n, cap), {"N": n, "MODE": 0, "FORCE": f, "PROP": 13, "CAP": cap}))
+    if prop == 13:
+        for n in ((3,) if q else (1, 2, 3, 4)):
+            for cap in ((n - 1,) if q else range(0, n)):
+                qs.append(bitmap_arm("P13-adaptive-bitmap-decode-n%d-cap%d" % (n, cap), {"N": n, "PART": 2, "CAP": cap}))
     if prop == 16:
+        qs.append(bitmap_arm("P16-adaptive-bitmap-encode-meta-n3", {"N": 3, "PART": 1}))
         for f in (0, 1, 2, 5):
             qs.append(aq("P16-adaptive-forced-%s-n2" % NAMES[f], {"N": 2, "MODE": 0, "FORCE": f, "PROP": 16}))
     return qs
